@@ -4,6 +4,8 @@ import FFVerif.Pins.pinParseHamiltonian
 import FFVerif.Pins.pinParseOperators
 import FFVerif.Pins.pinParseSpectrum
 import FFVerif.Pins.pinGetIndices
+import FFVerif.Pins.pinHashArray
+import FFVerif.Pins.pinAllArrayEqual
 #print axioms FFVerif.C20.parse_hamiltonian_valid_never_rejected
 #print axioms FFVerif.C20.parse_hamiltonian_rejects_iff
 #print axioms FFVerif.C20.parse_hamiltonian_rejected_invalid
@@ -57,3 +59,5 @@ import FFVerif.Pins.pinGetIndices
 #print axioms FFVerif.Pins.pinParseOperators
 #print axioms FFVerif.Pins.pinParseSpectrum
 #print axioms FFVerif.Pins.pinGetIndices
+#print axioms FFVerif.Pins.pinHashArray
+#print axioms FFVerif.Pins.pinAllArrayEqual
